@@ -30,10 +30,16 @@ const vfTopic = "topic"
 type vfBoard struct {
 	sent []storage.Message
 	ctl  *vfCrashCtl
+	// failCall = k > 0: the k-th Send call is refused as a whole (nothing of that call is appended); 0 = never
+	failCall, calls int
 }
 
 func (b *vfBoard) Send(ms ...storage.Message) error {
 	vf.Yield()
+	b.calls++
+	if b.failCall != 0 && b.calls == b.failCall {
+		return errors.New("board refused the call")
+	}
 	if b.ctl != nil {
 		defer b.ctl.effect("board send")
 	}
